@@ -227,6 +227,62 @@ def ex_array(rng, at_size):
     return ops
 
 
+def ex_transplant(rng):
+    """values moving between containers: a member of an object / an element of an array is duplicated while it is still
+    inside its container (JsonValue!DuplicateSub) and the duplicate is added to the other container or to the same one, read
+    back, removed again; whole containers are duplicated into each other; every step is followed by observations of both"""
+    ops = ["RESET", "NEW 0 obj", "NEW 2 arr"]
+    keys = pick_keys(rng, rng.randint(2, 4))
+    present, size = [], 0
+    for k in keys[: rng.randint(1, len(keys))]:
+        build_api(rng, rand_tree(rng, rng.choice([0, 0, 1]), [3]), [1, 4, 5], ops)
+        ops.append("ADDOBJ 0 %s 1" % hx(k))
+        present.append(k)
+    for _ in range(rng.randint(1, 3)):
+        build_api(rng, rand_tree(rng, rng.choice([0, 0, 1]), [3]), [1, 4, 5], ops)
+        ops.append("ADDARR 2 1")
+        size += 1
+    fresh = 0
+    for _ in range(rng.randint(3, 9)):
+        r = rng.random()
+        if r < 0.45 and present:                                 # object member -> array / another key of the object
+            ops.append("DUPOBJ 0 %s 3" % hx(rng.choice(present)))
+            if rng.random() < 0.7:
+                ops += ["ADDARR 2 3", "SIZE 2", "GETARR 2 %d" % size]
+                size += 1
+            else:
+                fresh += 1
+                nk = b"t%d" % fresh
+                ops += ["ADDOBJ 0 %s 3" % hx(nk), "GETOBJ 0 %s" % hx(nk)]
+                present.append(nk)
+        elif r < 0.8 and size:                                   # array element -> object / the array itself
+            ops.append("DUPARR 2 %d 3" % rng.randrange(size))
+            if rng.random() < 0.6:
+                fresh += 1
+                nk = b"u%d" % fresh
+                ops += ["ADDOBJ 0 %s 3" % hx(nk), "GETOBJ 0 %s" % hx(nk), "HAS 0 %s" % hx(nk)]
+                present.append(nk)
+            else:
+                ops += ["ADDARR 2 3", "SIZE 2", "GETARR 2 %d" % size]
+                size += 1
+        elif r < 0.9:                                            # a whole container into the other one
+            if rng.random() < 0.5:
+                ops += ["DUP 0 3", "ADDARR 2 3", "SIZE 2", "GETARR 2 %d" % size]
+                size += 1
+            else:
+                fresh += 1
+                nk = b"w%d" % fresh
+                ops += ["DUP 2 3", "ADDOBJ 0 %s 3" % hx(nk), "GETOBJ 0 %s" % hx(nk)]
+                present.append(nk)
+        else:                                                    # missing key / index beyond the end: nothing is made
+            ops += ["DUPOBJ 0 %s 3" % hx(b"nokey"), "DUPARR 2 %d 3" % (size + rng.choice([0, 1, 5]))]
+        if rng.random() < 0.4:
+            w = rng.choice([0, 2])
+            ops += ["PRINT %d %d 0 0" % (w, rng.choice([0, 1])), "PARSELAST 6", "RT %d 6" % w, "CMP %d 6" % w, "DESTROY 6"]
+    ops += round_trips(rng, 0, 6, 7) + round_trips(rng, 2, 6, 7)
+    return ops
+
+
 # ------------------------------------------------------------------------------------------------ texts
 def render_str(rng, b):
     out = '"'
@@ -466,6 +522,8 @@ def run(ctx):
         execs.append(ex_object(rng))
     for _ in range(250 * mult):
         execs.append(ex_array(rng, at_size=True))
+    for _ in range(150 * mult):
+        execs.append(ex_transplant(rng))
     for _ in range(560 * mult):
         execs.append(ex_text(rng, rng.choice([0, 1, 2, 3, 4, 4])))
     wide = []
